@@ -108,7 +108,34 @@ func c14Wf(e *env, b *c14Bundle, cfg string, sf *ast.SoyFileNode, es6 bool, tr m
 		e.res.Fail(hx.Violation{Kind: "mismatch", What: "jswf: unexpected answer of the model runner", Case: cs, Observed: strings.Join(r, " ")}, "")
 		return
 	}
-	model, bytes := r[2:bi], r[bi+1:]
+	ci := len(r)
+	for i, x := range r {
+		if x == "chk" {
+			ci = i
+		}
+	}
+	model, bytes := r[2:bi], r[bi+1:ci]
+	chk := ci+1 < len(r) && r[ci+1] == "#1"
+	hasMsg := strings.Contains(fmt.Sprint(b.Files), "{msg")
+	switch {
+	case chk:
+		// the hypothesis of C14_gen_output_parses_partial holds of this file
+		e.res.Histogram["wf:file_chk:pass"]++
+		if model[0] != "ok" {
+			e.res.Fail(hx.Violation{Kind: "mismatch", What: "file_chk holds but js_parse rejects the model's chunks: contradicts the Coq theorem gen_file_parses (extraction or runner defect)", Case: c14CaseOf(b, cfg, map[string]interface{}{"file": sf.Name})}, "")
+		}
+	case hasMsg:
+		e.res.Histogram["wf:file_chk:fail(bundle has {msg})"]++
+	case c14IntMember(sf):
+		e.res.Histogram["wf:file_chk:fail(js-int-literal-member)"]++
+	case c14ReservedNamespace(b) || c14StrictNamespace(b):
+		e.res.Histogram["wf:file_chk:fail(reserved namespace)"]++
+	default:
+		e.res.Histogram["wf:file_chk:fail(other)"]++
+		if len(e.res.Samples) < 6 {
+			e.res.Sample(map[string]interface{}{"file_chk_fails_on": c14Trunc(fmt.Sprint(b.Files)), "config": cfg})
+		}
+	}
 	key := ""
 	if c14IntMember(sf) {
 		key = c14FindingIntMember
